@@ -35,7 +35,7 @@ use ironcalc_base::{
 
 use crate::export::conditional_formatting::get_conditional_formatting_xml;
 
-use super::{escape::escape_xml, xml_constants::XML_DECLARATION};
+use super::{escape::escape_xml, styles_util::get_color_xml, xml_constants::XML_DECLARATION};
 
 fn get_range_str(row: i32, column: i32, width: i32, height: i32) -> Option<String> {
     let column1 = number_to_column(column)?;
@@ -199,7 +199,18 @@ pub(crate) fn get_worksheet_xml(
         row_style_dict.insert(row.r, row.clone());
     }
 
-    for (row_index, row_data) in worksheet.sheet_data.iter().sorted_by_key(|x| x.0) {
+    // rows that hold cells and rows that only have attributes (height, hidden, style)
+    let empty_row = HashMap::new();
+    let row_indices = worksheet
+        .sheet_data
+        .keys()
+        .chain(row_style_dict.keys())
+        .copied()
+        .sorted()
+        .dedup()
+        .collect::<Vec<i32>>();
+    for row_index in &row_indices {
+        let row_data = worksheet.sheet_data.get(row_index).unwrap_or(&empty_row);
         let mut row_data_str: Vec<String> = vec![];
         for (column_index, cell) in row_data.iter().sorted_by_key(|x| x.0) {
             let column_name = number_to_column(*column_index).unwrap();
@@ -568,6 +579,16 @@ pub(crate) fn get_worksheet_xml(
         format!("<cols>{cols}</cols>")
     };
 
+    // <sheetPr><tabColor rgb="FF00FF00"/></sheetPr>
+    let sheet_pr = if worksheet.color.is_some() {
+        format!(
+            "<sheetPr>{}</sheetPr>",
+            get_color_xml(&worksheet.color, "tabColor")
+        )
+    } else {
+        "".to_string()
+    };
+
     let tab_selected = if is_sheet_selected {
         " tabSelected=\"1\""
     } else {
@@ -658,6 +679,7 @@ pub(crate) fn get_worksheet_xml(
     format!(
         "{XML_DECLARATION}\
 <worksheet xmlns=\"http://schemas.openxmlformats.org/spreadsheetml/2006/main\" xmlns:r=\"http://schemas.openxmlformats.org/officeDocument/2006/relationships\">\
+  {sheet_pr}\
   <dimension ref=\"{dimension}\"/>\
   <sheetViews>\
     <sheetView workbookViewId=\"0\"{show_grid_lines}{tab_selected}>\
